@@ -115,7 +115,7 @@ Definition last_wins {V} (l : list (bytes * V)) : list (bytes * V) :=
 Fixpoint twin_clash_from (seen : list bytes) (rs : list rec) : bool :=
   match rs with
   | [] => false
-  | r :: t => existsb (beq (r_name r)) seen || twin_clash_from (decode_stack (r_name r) :: seen) t
+  | r :: t => existsb (fun k => beq k (r_name r)) seen || twin_clash_from (decode_stack (r_name r) :: seen) t
   end.
 Definition twin_clash (bs : bytes) : bool :=
   match spec_records bs with Some rs => twin_clash_from [] rs | None => false end.
